@@ -45,7 +45,7 @@ Record mstate := {
   buf : list N;                                 (* bytes buffered and not yet released *)
   pending : list (list N); alive : bool; interactive : bool;   (* a push_source that delivers [pending] chunk by chunk *)
   conds : list name; syms : symtab;
-  foldcache : list (N * list N);
+  foldcache : list (N * (N * list N));
   success : bool;
   fmode : N;                                    (* > 0: failing, that many backtrack points to go *)
   log : list event                              (* newest first *)
@@ -225,20 +225,20 @@ Fixpoint list_eqb (a b : list N) : bool :=
 (* compare(sr, sn, str): buffer.compare(sr, sn, str) == 0 *)
 Definition compare_at (i n : N) (str : list N) (s : mstate) : bool := list_eqb (firstnN n (subject_from i s)) str.
 
-Fixpoint cache_get (c : list (N * list N)) (k : N) : option (list N) :=
+Fixpoint cache_get (c : list (N * (N * list N))) (k : N) : option (N * list N) :=
   match c with [] => None | (k', v) :: r => if k' =? k then Some v else cache_get r k end.
-Definition cache_set (c : list (N * list N)) (k : N) (v : list N) : list (N * list N) :=
+Definition cache_set (c : list (N * (N * list N))) (k : N) (v : N * list N) : list (N * (N * list N)) :=
   (k, v) :: filter (fun kv => negb (fst kv =? k)) c.
 
-(* casefold_compare(sr, sn, str) with its per-offset cache *)
+(* casefold_compare(sr, sn, str) with its per-offset cache: an entry is (number of input bytes folded, their folding) *)
 Definition casefold_compare_at (ucd : ucd_table) (i n : N) (str : list N) (s : mstate) : option (bool * mstate) :=
-  let cached := match cache_get (foldcache s) i with Some v => v | None => [] end in
-  if lenN cached <? n then
+  let cached := match cache_get (foldcache s) i with Some v => v | None => (0, []) end in
+  if fst cached <? n then
     match utf8_tocasefold ucd (firstnN n (subject_from i s)) with
-    | Some f => Some (list_eqb (firstnN n f) str, upd_cache (cache_set (foldcache s) i f) s)
+    | Some f => Some (list_eqb (firstnN n f) str, upd_cache (cache_set (foldcache s) i (n, f)) s)
     | None => None
     end
-  else Some (list_eqb (firstnN n cached) str, match cache_get (foldcache s) i with Some _ => s | None => upd_cache (cache_set (foldcache s) i []) s end).
+  else Some (list_eqb (firstnN n (snd cached)) str, match cache_get (foldcache s) i with Some _ => s | None => upd_cache (cache_set (foldcache s) i (0, [])) s end).
 
 (* match_sequence(sr, str, comp): works on an explicit subject index [i] so that the symbol matchers can chain *)
 Definition m_seq_at (ucd : ucd_table) (cf : bool) (str : list N) (i : N) (s : mstate) : result + (option N * mstate) :=
@@ -349,9 +349,11 @@ Definition do_accept (s : mstate) : result :=
   let '(ok, s1) := run_responses m (resp s) s in
   if ok then Running (upd_rc 0 (upd_resp [] s1)) else Stuck OutOfRange (upd_rc 0 (upd_resp [] s1)).
 
+(* do_drain: a backtrack frame older than the released text can never be resumed; one pushed at (or after) the
+   drain point is re-based to the released text and has no pending responses any more *)
 Definition tombstone (cur : N) (f : frame) : frame :=
   match f with
-  | FBack (Some x) c d i p => if x <? cur then FBack None c d i p else f
+  | FBack (Some x) c d i p => if x <? cur then FBack None c d i p else FBack (Some (x - cur)) 0 d i p
   | _ => f
   end.
 
@@ -734,7 +736,7 @@ Definition step (ucd : ucd_table) (cb : callbacks) (prog : list sinstr) (s : mst
        | None =>
            (* running off the end: `if (!success_) return false; accept(); return true;` *)
            if success s then match final_accept s with Running s1 => Done true s1 | other => other end
-           else Done false s
+           else Done false (upd_mr (N.max (mr s) (sr s)) s)
        | Some i => exec ucd cb i (upd_pc (pc s + 1)%Z s)
        end.
 
